@@ -1,10 +1,57 @@
 /-
 C04 - table minimisation never changes where a matched key is routed.
+Property theorems (helper lemmas live in RigModel/Lemmas/C04*.lean).
 -/
-import RigModel.Model.C04
+import RigModel.Lemmas.C04
 set_option linter.unusedSimpArgs false
 set_option linter.unusedVariables false
 
 namespace Rig.C04
+
+/-! ## Default-route removal (any table at all) -/
+
+/-- **removeDefault_equiv.** For *any* table (no order, orthogonality or well-formedness
+assumed) and any target, a table returned by `remove_default_routes.minimise` routes every key
+matched by the input identically: by the same first-matching entry, or by default routing when
+the dropped entry went straight through from a single link. -/
+theorem removeDefault_equiv (T T' : List Entry) (target : Option Nat)
+    (h : removeDefault T target true = .ok T') : RouteEquiv T T' := by
+  intro k
+  have hk := removeDefaultTable_keyOk T k
+  simp only [removeDefault] at h
+  split at h
+  · split at h
+    · cases h
+    · cases h; exact hk
+  · cases h; exact hk
+
+/-- **removeDefault_length.** The result is a sub-list of the input (same entries, same order),
+in particular never longer. -/
+theorem removeDefault_length (T T' : List Entry) (target : Option Nat) (check : Bool)
+    (h : removeDefault T target check = .ok T') : T'.Sublist T ∧ T'.length ≤ T.length := by
+  have hs : (removeDefaultTable T check).Sublist T := by
+    simp only [removeDefaultTable]; exact rdLoop_sublist _ T
+  simp only [removeDefault] at h
+  split at h
+  · split at h
+    · cases h
+    · cases h; exact ⟨hs, hs.length_le⟩
+  · cases h; exact ⟨hs, hs.length_le⟩
+
+/-- **removeDefault_target.** With a target the result meets it, or `MinimisationFailedError`
+carries the target and the size reached (which exceeds the target); no other error exists. -/
+theorem removeDefault_target (T : List Entry) (t : Nat) (check : Bool) :
+    (∃ T', removeDefault T (some t) check = .ok T' ∧ T'.length ≤ t) ∨
+    (∃ n, removeDefault T (some t) check = .error (.minFailed t n) ∧ t < n ∧
+      n = (removeDefaultTable T check).length) := by
+  simp only [removeDefault]
+  by_cases h : t < (removeDefaultTable T check).length
+  · right; exact ⟨_, by rw [if_pos h], h, rfl⟩
+  · left; exact ⟨_, by rw [if_neg h], by omega⟩
+
+/-- non-vacuity: a straight-through entry (from west to east) is dropped, an entry for the
+same keys from two links is kept. -/
+example : removeDefault [⟨1, 5#32, 0xf#32, 8⟩, ⟨1, 6#32, 0xf#32, 8 + 16⟩] none true
+    = .ok [⟨1, 6#32, 0xf#32, 8 + 16⟩] := by rfl
 
 end Rig.C04
